@@ -36,7 +36,7 @@ func allUnits(tier string) []unit {
 	}
 	us = append(us,
 		unit{Set: "default", Def: "Enum", DotRel: g, DotType: "Enum", Lists: []int{0, 1, 2}},
-		unit{Set: "default", Def: "Typedef", DotRel: g, DotType: "Typedef"},
+		unit{Set: "default", Def: "Typedef", DotRel: g, DotType: "Typedef", Cats: []string{"I32", "Enum", "Struct", "Union", "List"}},
 		unit{Set: "default", Def: "Constant", DotRel: g, DotType: "Scope", Lists: []int{0, 1, 2}, Cats: []string{"I32", "String", "List"}},
 		unit{Set: "default", Def: "", Name: "File", DotRel: g, DotType: "Scope", Lists: []int{0, 1}, Stub: []string{"Constant", "Enum", "Typedef", "StructLike", "ThriftService", "ThriftClient", "ThriftProcessor"}},
 		unit{Set: "raw_struct", Def: "", Name: "File", DotRel: g, DotType: "Scope", Lists: []int{0, 1}, Stub: []string{"Constant", "Enum", "Typedef", "StructLike", "ThriftService", "ThriftClient", "ThriftProcessor"}},
@@ -111,6 +111,41 @@ func c01(c *core.Check) {
 		}
 		if r.U.Def == "StructLikeDeepEqualField" || r.U.Def == "StructLikeWriteField" {
 			c01valueElems(agg, r)
+		}
+		if r.U.Def == "Typedef" {
+			// `type T S` (a defined type, use_type_alias=false) has none of S's methods, while the struct templates call
+			// Read / Write / InitDefault / DeepEqual on every struct-like field or element whatever name its type was given
+			var tsh *shape
+			if dot, ok := r.R.Dot.(*tmpl.Obj); ok {
+				if t, ok := dot.Peek("Typedef", "Type").(*tmpl.Obj); ok {
+					tsh = shapeOf(r.W, t)
+				}
+			}
+			if tsh != nil {
+				switch {
+				case tsh.isStructLike():
+					agg.check("typedef-of-struct-keeps-methods", k)
+					for _, d := range r.P.File.Decls {
+						gd, ok := d.(*ast.GenDecl)
+						if !ok || gd.Tok != token.TYPE {
+							continue
+						}
+						for _, sp := range gd.Specs {
+							if ts, ok := sp.(*ast.TypeSpec); ok && !ts.Assign.IsValid() {
+								methods := 0
+								for _, d2 := range r.P.File.Decls {
+									if fd, ok := d2.(*ast.FuncDecl); ok && fd.Recv != nil && strings.Contains(types.ExprString(fd.Recv.List[0].Type), ts.Name.Name) {
+										methods++
+									}
+								}
+								if methods == 0 {
+									agg.fail("typedef-of-struct-keeps-methods", k, "under ["+r.R.Valuation+"]: a typedef of a struct-like is emitted as the defined type `type "+ts.Name.Name+" …` without any method: `typedef S T  struct U {1: T t}` with use_type_alias=false generates `_field.Read` on a *T — T has no method Read, the package does not compile")
+								}
+							}
+						}
+					}
+				}
+			}
 		}
 		used := qualifiersUsed(r.P.File)
 		decl := map[string]bool{}
@@ -237,7 +272,8 @@ func c01(c *core.Check) {
 		}
 	}
 	agg.flush(c, map[string]string{"render-parses": "parses as Go", "render-typechecks": "no label/goto/unused/redeclared/missing-return diagnostic", "imports-balanced": "declared libraries = used qualifiers",
-		"value-elements-by-address": "container elements reach DeepEqual by address iff value_type_in_container"})
+		"value-elements-by-address":       "container elements reach DeepEqual by address iff value_type_in_container",
+		"typedef-of-struct-keeps-methods": "a typedef of a struct-like is an alias, or the defined type gets the methods the struct templates call"})
 	c.Min("value-elements-by-address", 2)
 	c.Min("render-parses", 25)
 	c.Min("reserved-method-name", 8)
@@ -352,6 +388,7 @@ func c01qualifiers(c *core.Check) {
 	c01mapKeyRepresentable(c)
 	c01fastgoPerFile(c)
 	c01fastgoValueElems(c)
+	c01astSurgery(c)
 }
 
 type sync2 = sync.Mutex
